@@ -120,3 +120,19 @@ M("norm-keep-base-fragment", "normalizer.go", "	// copying fragment from ref to 
 M("norm-no-clean-ref", "normalizer.go", "	refURL.Path = path.Clean(refURL.Path)\n	if refURL.Path == \".\" {\n		refURL.Path = \"\"\n	}\n\n	r := MustCreateRef", "	r := MustCreateRef", ["C12"])
 M("norm-abs-path-appended", "normalizer.go", "	if path.IsAbs(refURL.Path) {\n		baseURL.Path = refURL.Path", "	if path.IsAbs(refURL.Path) && false {\n		baseURL.Path = refURL.Path", ["C12"])
 M("norm-dotdot-at-three-levels", "normalizer.go", "		baseURL.Path = path.Join(path.Dir(baseURL.Path), refURL.Path)", "		baseURL.Path = path.Join(path.Dir(baseURL.Path), refURL.Path)\n		if strings.Count(refURL.Path, \"../\") >= 3 {\n			baseURL.Path = path.Join(path.Dir(path.Dir(baseURL.Path)), path.Base(baseURL.Path))\n		}", ["C12"])
+
+# ---- C10 / C18 / C16 state and caches ------------------------------------------
+M("state-options-not-cloned", "expander.go",
+  "		clone := *opts // shallow clone to avoid internal changes to be propagated to the caller\n		if clone.RelativeBase != \"\" {\n			clone.RelativeBase = normalizeBase(clone.RelativeBase)\n		}\n		// if the relative base is empty, let the schema loader choose a pseudo root document\n		return &clone",
+  "		if opts.RelativeBase != \"\" {\n			opts.RelativeBase = normalizeBase(opts.RelativeBase)\n		}\n		return opts", ["C10", "C11"])
+M("state-cache-key-unnormalized", "schema_loader.go", "	r.cache.Set(normalized, doc)\n", "	r.cache.Set(pth, doc)\n", ["C18"])
+M("state-cache-no-set", "schema_loader.go", "	r.cache.Set(normalized, doc)\n", "", ["C18"])
+M("state-cache-lookup-after-load", "schema_loader.go",
+  "	data, fromCache := r.cache.Get(normalized)\n	if fromCache {\n		return data, toFetch, fromCache, nil\n	}\n\n	b, err := r.context.loadDoc(normalized)",
+  "	b, err := r.context.loadDoc(normalized)\n	data, fromCache := r.cache.Get(normalized)\n	if fromCache {\n		return data, toFetch, fromCache, nil\n	}\n", ["C18"])
+M("state-default-cache-shared", "cache.go", "	return resCache.ShallowClone()", "	return resCache", ["C16", "C18"])
+M("state-shallowclone-shares-map", "cache.go", "	return &simpleCache{\n		store: store,\n	}", "	_ = store\n	return &simpleCache{\n		store: s.store,\n	}", ["C16"])
+M("state-root-written-through", "schema_loader.go",
+  "	if (ref.IsRoot() || ref.HasFragmentOnly) && root != nil {\n		data = root",
+  "	if (ref.IsRoot() || ref.HasFragmentOnly) && root != nil {\n		if sw, ok := root.(*Swagger); ok && sw.Info != nil {\n			sw.Info.Description = \"touched\"\n		}\n		data = root", ["C10", "C05"])
+M("state-baseforroot-ignores-preloaded", "expander.go", "		if found && cachedRoot != nil {", "		if found && cachedRoot != nil && false {", ["C10", "C18"])
